@@ -3,7 +3,8 @@ EXTENDS ImportCamt, Json
 CONSTANT MaxEntries
 VARIABLES opening, entries, order
 
-Det(a, c) == [amt |-> a, charge |-> c]
+Det(a, c) == [amt |-> a, charge |-> c, rev |-> FALSE]
+Rev(a) == [amt |-> a, charge |-> DZero, rev |-> TRUE]
 \* an entry amount and the ways it is batched (details sum to the entry; a charge is included in its detail)
 Shapes == {
   [amt |-> D(100, 2), details |-> <<>>],
@@ -11,7 +12,9 @@ Shapes == {
   [amt |-> D(200, 2), details |-> <<Det(D(100, 2), DZero), Det(D(100, 2), DZero)>>],
   [amt |-> D(1050, 2), details |-> <<Det(D(1000, 2), DZero), Det(D(50, 2), DZero)>>],
   [amt |-> D(1050, 2), details |-> <<Det(D(1050, 2), D(50, 2))>>],
-  [amt |-> D(123456, 2), details |-> <<Det(D(123456, 2), DZero)>>]
+  [amt |-> D(123456, 2), details |-> <<Det(D(123456, 2), DZero)>>],
+  [amt |-> D(100, 2), details |-> <<Det(D(200, 2), DZero), Rev(D(100, 2))>>],
+  [amt |-> D(1050, 2), details |-> <<Rev(D(50, 2)), Det(D(1100, 2), DZero)>>]
 }
 Entries == {[cd |-> cd, amt |-> s.amt, vday |-> v, bday |-> b, details |-> s.details] :
               cd \in {"CRDT", "DBIT"}, s \in Shapes, v \in {2, 3}, b \in {3}}
